@@ -176,6 +176,23 @@ def check(ctx: Ctx) -> str:
     from . import c26
 
     ctx.run_imported("C26", {"R1", "R2", "R3"}, c26.check)
+    ctx.rule("R5", "the template cache is used only through what both of its implementations offer: every method called on `<env>.cache` exists on dict and is defined by utils.LRUCache (which is registered as, not derived from, MutableMapping)")
+    ctx.use("utils")
+    lru = repo.cls("utils:LRUCache")
+    lru_api = set(lru.methods) | set(lru.assigns)
+    n_c = 0
+    for mod in ("environment", "loaders", "ext", "sandbox", "nativetypes", "runtime"):
+        m_ = repo.module(mod)
+        for c in astq.calls(m_.tree):
+            if isinstance(c.func, ast.Attribute) and isinstance(c.func.value, ast.Attribute) and c.func.value.attr == "cache" and ast.unparse(c.func.value.value) in ("self", "environment", "self.environment", "rv", "env"):
+                n_c += 1
+                meth = c.func.attr
+                ok = meth in lru_api and hasattr(dict, meth)
+                ctx.check(ok, f"cache-api:{mod}:{astq.enclosing_qual(c)}:{meth}", f"{mod}:{astq.enclosing_qual(c)}", f"`{ast.unparse(c)[:50]}`",
+                          f"{mod}.{astq.enclosing_qual(c)} calls `{ast.unparse(c.func)}`; the cache is a plain dict (cache_size=-1) or a utils.LRUCache (default), and `{meth}` is {'not defined by LRUCache' if meth not in lru_api else 'not a dict method'}: the call raises AttributeError for one of the two - with the default cache a reload of a vanished template raises AttributeError instead of TemplateNotFound",
+                          f"{m_.rel}:{c.lineno}")
+    ctx.floor("method calls on the template cache", n_c, 1)
+
     return __doc__ or ""
 
 
